@@ -49,3 +49,59 @@ func VerifC19PacketStateReadBack() {
 	rt.Reach("hashes")
 	rt.Assert("J2-entry-read-back", len(got) == 1 && got[0].SrcChain == s && got[0].DstChain == d && got[0].Sequence == q && rt.BytesEq(got[0].Data, hash))
 }
+
+// VerifC19SequenceRange (J2, J1 over the full uint64 range of sequences): with two fixed valid chain names, an entry of each
+// sequence-indexed family written for ANY sequence is read back for that sequence, and two entries of one family
+// coincide only for equal sequences. Numbers of more than four digits are rendered with uninterpreted digits
+// (strconv's contract: decimal digits only, text determines the number, ParseUint inverts FormatUint).
+func VerifC19SequenceRange() {
+	rt.Opt("exact-decimal")
+	rt.Opt("structured-keys")
+	rt.Opt("max-enum-40")
+	ctx := rt.EmptyCtx()
+	k := NewKeeper(rt.Codec(), rt.StoreKey(host.StoreKey), nil, nil, nil)
+	s, d := "abc", "x-1"
+	q := rt.U64("q")
+	hash := rt.BytesN("hash", 2)
+	var got []types.PacketState
+	switch rt.IntRange("family", 0, 2) {
+	case 0:
+		k.SetPacketCommitment(ctx, s, d, q, hash)
+		got = k.GetAllPacketCommitments(ctx)
+	case 1:
+		k.SetPacketAcknowledgement(ctx, s, d, q, hash)
+		got = k.GetAllPacketAcks(ctx)
+	case 2:
+		k.SetPacketReceipt(ctx, s, d, q)
+		got = k.GetAllPacketReceipts(ctx)
+		hash = []byte{1}
+	}
+	rt.Reach("read")
+	if q >= 1<<63 {
+		rt.Reach("upper-half-of-the-range")
+	}
+	rt.Assert("J2-entry-read-back-any-sequence", len(got) == 1 && got[0].SrcChain == s && got[0].DstChain == d && got[0].Sequence == q && rt.BytesEq(got[0].Data, hash))
+}
+
+// VerifC19SequenceKeysInjective: keys of one family and one path for two arbitrary sequences coincide only for equal sequences.
+func VerifC19SequenceKeysInjective() {
+	rt.Opt("exact-decimal")
+	rt.Opt("max-enum-40")
+	q1, q2 := rt.U64("q1"), rt.U64("q2")
+	kind := rt.IntRange("kind", 0, 3)
+	var a, b []byte
+	switch kind {
+	case 0:
+		a, b = host.PacketCommitmentKey("abc", "x-1", q1), host.PacketCommitmentKey("abc", "x-1", q2)
+	case 1:
+		a, b = host.PacketAcknowledgementKey("abc", "x-1", q1), host.PacketAcknowledgementKey("abc", "x-1", q2)
+	case 2:
+		a, b = host.PacketReceiptKey("abc", "x-1", q1), host.PacketReceiptKey("abc", "x-1", q2)
+	case 3:
+		a, b = host.PacketRelayerKey("abc", "x-1", q1), host.PacketRelayerKey("abc", "x-1", q2)
+	}
+	if string(a) == string(b) {
+		rt.Reach("equal-keys")
+		rt.Assert("J1-same-sequence-any-sequence", q1 == q2)
+	}
+}
